@@ -384,6 +384,9 @@ func (e *Engine) heapSortByName(c *FnCtx, name string) (string, bool) {
 	if s, ok := c.knownHeaps[name]; ok {
 		return s, true
 	}
+	if strings.HasPrefix(name, "GH_g_") {
+		return "(Array Int Int)", true
+	}
 	switch name {
 	case "BIG":
 		return "(Array Int Int)", true
